@@ -368,3 +368,45 @@ Definition inbound (sites : list gate) (m : rules) (p : Z) (a : option ip) : lis
 (* the sites of the complete stack: swarm + one transport family *)
 Definition full_sites : list gate :=
   [GPeerDial; GAddrDial; GAccept; GSecuredIn; GSecuredOut; GUpgraded].
+
+(* ---- addresses known by name --------------------------------------------- *)
+(* addrsForDial -> resolveAddrs -> chainResolvers (swarm_dial.go).  An address
+   the peerstore lists for the remote is an IP address, or a /dns4 | /dns6 |
+   /dns name together with what the swarm's multiaddr resolver answers for it:
+   an error ([None]) or a list of IP addresses.  chainResolvers DROPS an
+   address whose resolution fails and replaces a resolved name by one IP
+   address per answer, so that only IP addresses reach filterKnownUndialables
+   (InterceptAddrDial) and the transports. *)
+Inductive kaddr := KIp (a : ip) | KName (res : option (list ip)).
+
+Definition resolve_one (k : kaddr) : list ip :=
+  match k with
+  | KIp a => [a]
+  | KName None => []
+  | KName (Some l) => l
+  end.
+
+Definition resolve_addrs (l : list kaddr) : list ip := flat_map resolve_one l.
+
+(* what the recording gater and the recording transport of the harness see:
+   the gate answers, the address handed to a transport ([None]: an address
+   without IP component, i.e. a name) and the IP address the transport then
+   opens a connection to (a transport handed a name looks it up itself) *)
+Inductive rev :=
+  | RvPeerDial (allow : bool)
+  | RvAddrDial (a : option ip) (allow : bool)
+  | RvTptDial (a : option ip)
+  | RvTptConn (a : ip).
+
+Fixpoint rdial_addrs (m : rules) (addrs : list ip) : list rev :=
+  match addrs with
+  | [] => []
+  | a :: r =>
+      let ok := intercept_addr_dial m (Some a) in
+      RvAddrDial (Some a) ok ::
+      (if ok then [RvTptDial (Some a); RvTptConn a] else []) ++ rdial_addrs m r
+  end.
+
+Definition rdial (m : rules) (p : Z) (l : list kaddr) : list rev :=
+  let ok := intercept_peer_dial m p in
+  RvPeerDial ok :: (if ok then rdial_addrs m (resolve_addrs l) else []).
